@@ -15,7 +15,9 @@ environment, starts the UNMODIFIED binary with the config flag in one of its fou
   * the pid file, the log file, and the lines of the log that only one value of a boolean produces,
   * after SIGTERM: exit status 0 and which template cache files exist and hold the announced templates.
 The expectation is computed HERE from the draw by the documented rule (command line, else the file named by the config flag,
-else VFLOW_<KEY>, else the built-in default as documented in docs/config.md / `vflow -h`); no vflow code is called.
+else VFLOW_<KEY>, else the built-in default: the key table below carries the defaults `vflow -h` prints, which C17's regenerated
+option table pins; docs/config.md differs from them for netflow5/9-workers and the NetFlow v9 cache file, recorded in DESIGN §6);
+no vflow code is called.
 
 A second kind of cycle gives one value that cannot be parsed (or an unknown flag, a flag without its value): the start must
 fail with the exit status package flag / log.Fatal give (2 / 1) and a message naming the flag (command line) or quoting the
@@ -579,6 +581,9 @@ def _settings_once(n, seed, binary, attempt):
             where = [p for p in sorted(set(list(d.prov["pid-file"].values()) + [KEY["pid-file"].default, str(d.twice.get("pid-file"))])) if p != E["pid-file"]
                      and os.path.exists(p) and open(p).read() == str(pid)]
             mism.append(("pid-file", ("wrote its pid to %s" % where[0]) if where else "has not written its pid %d to that file (content: %r)" % (pid, pidtxt)))
+            for q in where:
+                if not q.startswith(wdir + "/"):
+                    os.remove(q)          # a file outside this cycle's directory that holds this collector's pid: its own litter
         if ("the full logging enabled" in stderr_text()) != E["verbose"]:
             mism.append(("verbose", "%s the full logging" % ("did not enable" if E["verbose"] else "enabled")))
 
